@@ -521,3 +521,27 @@ func verifExclusiveSys(p uint16, s uint8, which uint8) int {
 
 //@ func verifExclusiveSys
 //@ ensures [P:C07] result <= 1
+
+// ---------------------------------------------------------------- listener side (C04, C06, C07 loopback)
+
+//@ func _channelMessage
+//@ requires typ >= 8 && typ <= 14 && channel <= 15 && data1 < 0x80 && data2 < 0x80
+//@ ensures [P:C04] fresh(result) && result[0] == ((typ << 4) | channel) && result[1] == data1
+//@ ensures [P:C04] (typ == 12 || typ == 13) ==> len(result) == 2
+//@ ensures [P:C04] !(typ == 12 || typ == 13) ==> (len(result) == 3 && result[2] == data2)
+
+// ListenTo$1 is the callback that midi.ListenTo hands to the driver. Its input is the driver-layer
+// representation (see drivers/zz_contracts_verif.go): status first, channel and system common messages
+// padded to three bytes, [F7 00 00] for an unpaired F7. It must deliver the exact MIDI message, and nothing
+// for the unpaired F7.
+//@ func ListenTo$1
+//@ requires recv != nil && len(data) >= 1 && data[0] >= 0x80
+//@ requires (data[0] < 0xF8 && data[0] != 0xF0) ==> (len(data) >= 3 && data[1] < 0x80 && data[2] < 0x80)
+//@ modifies isStatusSet, typ, channel, cb_log
+//@ ensures [P:C06] (data[0] == 0xF7 || data[0] == 0xF4 || data[0] == 0xF5) ==> cb_n == old(cb_n)
+//@ ensures [P:C04] !(data[0] == 0xF7 || data[0] == 0xF4 || data[0] == 0xF5) ==> (cb_n == old(cb_n) + 1 && cb_fn(old(cb_n)) == recv && cb_i32(old(cb_n), 1) == millisec && cb_byte(old(cb_n), 0, 0) == data[0])
+//@ ensures [P:C04] (data[0] >= 0xF8 || data[0] == 0xF6) ==> cb_len(old(cb_n), 0) == 1
+//@ ensures [P:C04] (data[0] >= 0x80 && data[0] <= 0xEF) ==> (cb_len(old(cb_n), 0) == nominalLen(data[0]) && cb_byte(old(cb_n), 0, 1) == data[1] && (nominalLen(data[0]) == 3 ==> cb_byte(old(cb_n), 0, 2) == data[2]))
+//@ ensures [P:C04] (data[0] == 0xF1 || data[0] == 0xF3) ==> (cb_len(old(cb_n), 0) == 2 && cb_byte(old(cb_n), 0, 1) == data[1])
+//@ ensures [P:C07] data[0] == 0xF2 ==> (cb_len(old(cb_n), 0) == 3 && cb_byte(old(cb_n), 0, 1) == data[1] && cb_byte(old(cb_n), 0, 2) == data[2])
+//@ ensures [P:C04] data[0] == 0xF0 ==> (cb_len(old(cb_n), 0) == len(data) && forall j int :: 0 <= j && j < len(data) ==> cb_byte(old(cb_n), 0, j) == data[j])
